@@ -1,6 +1,8 @@
 """C01 — library round trip is lossless for every writer, codec and cipher configuration"""
 from vlib.flow import Check
 from props import _stream, _archive, _pipeline
+from vlib import core
+import subprocess
 
 META = {
     "level": "proof",
@@ -8,6 +10,26 @@ META = {
     "level_text": "Proved in Coq (closed under the global context, no axioms): the stream layer is a lossless byte transport for all partitions of the payload into write() calls, all cuts of the data stream into chunks and all read() buffer sizes; on top of it, for every codec x cipher x mode configuration, every slicing of the caller's writes and every sequence of positive read-buffer sizes that reaches the end, an entry built by EntryBuilder decodes to exactly the written bytes, parsing its serialisation gives back name, kind, times, permission, xattrs, extra chunks, raw size = content length and compressed size = sum of the data chunks; archives of built entries read back as the same entries in order; the streaming Archive::write_file, SolidEntryBuilder and the streaming SolidArchive (fed call by call the way write_chunk_in feeds them) give back their inner entries and contents; the result does not depend on the slicing. Premises: the block cipher is a length-preserving permutation of 16-byte blocks with D k (E k b) = b; decompress (compress x) = x for whatever pieces the compressor emits and the compressed bytes do not depend on the write slicing; the KDF is a function of (PHSF, password). The cipher premise is discharged (coq/Props/C01_cipher.v): the executable AES-256 (FIPS-197) and Camellia-256 (RFC 3713) models are proved to be length-preserving permutations of 16-byte blocks with dec k (enc k b) = b for every key, and the main theorems are restated with them, leaving only the compressor and KDF laws as premises; it is also discharged for the toy cipher of the stream area. The model is tied to the Rust code by running both on generated cases: stream state machines through cfg(pna_verif) hooks (exact call-level agreement), and the whole pipeline through the public API with the real AES-256/Camellia-256 inside the model: with compression = store the model predicts every byte of the produced entry / archive from (key, IV, PHSF, the caller's writes) alone, with a compressor it predicts everything given the compressor's output pieces; the reader is run on the same bytes with the case's buffer sizes (right, missing and wrong password).",
     "level_note": "Trusted: Coq kernel + vm_compute; extraction and driver (cross-checked in the kernel on a sample of every run); harness/src/bin/stream.rs and pipeline.rs; refdec.rs (independent chunk parser, PHC parser, CBC/CTR loops, one-shot decompression) used to read salt/IV/compressor pieces back from what the implementation wrote. Compressors and KDFs are NOT modelled: they enter the pipeline model as oracle tables computed per case with the primitive crates (verify: PHSF -> key, decompress: stream -> bytes, compress: the observed output pieces), and the law assumed of them (independent one-shot decompression of the observed stream = the content; key recomputed independently from password and PHSF) is checked per case, not proved. That the `aes`/`camellia` crates compute AES-256/Camellia-256 is checked by agreement with the Gallina models on every encrypted case, not proved. " + _archive.NOTE,
 }
+
+def huge_write(c, seed):
+    """One write of 2^32 + k bytes through Archive::write_file and SolidArchive::write_file (harness/src/bin/hugewrite.rs):
+    outside the model, whose chunk sink (one write = one chunk) is stated for payloads below 2^32; the archive is parsed
+    as it is written and must frame exactly the bytes written (fix 45407aa2)."""
+    ok, log = core.build_harness(["hugewrite"])
+    if not ok:
+        c.violations.append(("build", "harness hugewrite does not build against /repo", log[-2000:], False))
+        return
+    extra = [0, 1, 5, 65521, (1 << 32) + 3][seed % 5] if c.tier == "thorough" else [1, 5, 4097][seed % 3]
+    p = subprocess.run([core.harness_bin("hugewrite"), str(extra)], stdout=subprocess.PIPE, stderr=subprocess.PIPE, text=True, timeout=1800,
+                       preexec_fn=core._limit_as(24 << 30) if hasattr(core, "_limit_as") else None)
+    c.cov["evaluations"] += 2
+    c.hist["single writes of 2^32+k bytes (write_file, solid write_file)"] = 2
+    for line in p.stdout.split("\n")[:4]:
+        if line.strip():
+            c.violations.append(("oracle", "huge write: " + line.strip(), "harness/src/bin/hugewrite.rs %d\n%s" % (extra, p.stdout[:3000]), True))
+    if p.returncode != 0:
+        c.violations.append(("impl", "hugewrite crashed (rc=%d)" % p.returncode, p.stderr[-1500:], True))
+
 
 def run(tier, seed, replay=None):
     c = Check("C01", tier, seed)
@@ -17,4 +39,5 @@ def run(tier, seed, replay=None):
     c.proofs()
     _stream.step(c, "C01")
     _pipeline.step(c, "C01")
+    huge_write(c, seed)
     return c.finish("proof", _archive.TRUSTED + _stream.TRUSTED)   # _pipeline.TRUSTED is added by its step
